@@ -101,6 +101,7 @@ func (fr *frame) exprText(pos token.Pos, kind string) string {
 
 func (fr *frame) execInstr(ins ssa.Instruction, st *State) {
 	w, vc := fr.w, fr.vc
+	fr.lockChecks(ins, st)
 	switch x := ins.(type) {
 	case *ssa.DebugRef:
 	case *ssa.If, *ssa.Jump:
